@@ -99,7 +99,7 @@ def check(case):
     from mokapot import utils as mutils
 
     desc = case["desc"]
-    bigint = bool(case.get("bigint")) and case["impl"] != "merge_sort"
+    bigint = bool(case.get("bigint"))
     if bigint:
         rank = {v: i for i, v in enumerate(sorted({float(v) for x in case["inputs"] for v in x}))}
         inputs = [sorted((2**60 + rank[float(v)] for v in x), reverse=desc) for x in case["inputs"]]
